@@ -6,5 +6,6 @@ CONSTANTS
   Js = {1}
   Ks = {1}
   Crashes = FALSE
+  Toks = {99}
 POSTCONDITION TraceAccepted
 CHECK_DEADLOCK FALSE
